@@ -30,34 +30,40 @@ VARIABLES pool, nops
 vars == <<pool, nops>>
 
 Range(s) == {s[k] : k \in 1..Len(s)}
+ASubVals == [k \in 1..Len(SubVals) |-> Ann(SubVals[k])]
 Last == pool[Len(pool)]
 Op0(n) == [n |-> n, p |-> <<>>]
 
 -----------------------------------------------------------------------------
-(* well-typedness: the documented preconditions of each constructor *)
+(* well-typedness: the documented preconditions of each constructor, for an *)
+(* annotated node whose children are well-typed annotated terms             *)
 
 SharedAgree(a, b) ==   \* inputs with the same name have the same domain
   \A k \in 1..Len(a) : HasName(b, a[k][1]) => Lookup(b, a[k][1]) = a[k][2]
 
-RECURSIVE WellTyped(_)
 WellTyped(t) ==
   CASE t.c \in {"Var", "Num", "Ten"} -> TRUE
     [] t.c = "Slice" -> t.step > 0 /\ t.start >= 0 /\ SliceSize(t) > 0
     [] t.c = "Un" ->
-         /\ WellTyped(t.arg)
-         /\ LET d == Output(t.arg) IN
+         LET d == t.arg.to IN
             CASE t.op.n \in ArrayReductions ->
                    /\ d.dt = 0 \/ t.op.n \in {"all", "any"}
+                   /\ t.op.n \in {"all", "any"} => d.dt = 2
                    /\ t.op.p[1] = NoAxis \/ (t.op.p[1] >= -Len(d.sh) /\ t.op.p[1] < Len(d.sh))
               [] t.op.n = "reshape" -> Size(t.op.p) = Size(d.sh)
-              [] t.op.n = "getslice" -> Len(t.op.p) <= Len(d.sh)
+              [] t.op.n = "getslice" ->
+                   /\ Len(t.op.p) <= Len(d.sh)
+                   /\ \A k \in 1..Len(t.op.p) :
+                        LET q == t.op.p[k] IN
+                        IF q.k = "int" THEN q.i >= 0 /\ q.i < d.sh[k]
+                        ELSE q.n >= 1 /\ q.step >= 1 /\ q.start >= 0
+                             /\ q.start + q.step * (q.n - 1) < d.sh[k]
               [] t.op.n \in {"invert", "not"} -> d.dt = 2
               [] t.op.n \in {"neg", "abs", "reciprocal", "sqrt", "log1p", "expm1"} -> d.dt = 0
               [] OTHER -> TRUE
     [] t.c = "Bin" ->
-         /\ WellTyped(t.l) /\ WellTyped(t.r)
-         /\ SharedAgree(Inputs(t.l), Inputs(t.r))
-         /\ LET a == Output(t.l)  b == Output(t.r) IN
+         /\ SharedAgree(t.l.ti, t.r.ti)
+         /\ LET a == t.l.to  b == t.r.to IN
             CASE t.op.n = "getitem" ->
                    /\ t.op.p[1] < Len(a.sh) /\ IsBintD(b) /\ b.dt = a.sh[t.op.p[1] + 1]
               [] t.op.n = "matmul" ->
@@ -68,69 +74,59 @@ WellTyped(t) ==
                    a.dt = 0 /\ b.dt = 0 /\ BroadcastShape(a.sh, b.sh) # <<-1>>
               [] OTHER -> BroadcastShape(a.sh, b.sh) # <<-1>>
     [] t.c = "Red" ->
-         /\ WellTyped(t.arg)
          /\ \A k \in 1..Len(t.vars) :
               /\ IsBintD(t.vars[k][2])
-              /\ HasName(Inputs(t.arg), t.vars[k][1]) =>
-                   Lookup(Inputs(t.arg), t.vars[k][1]) = t.vars[k][2]
-         /\ t.op \in {"and", "or"} => Output(t.arg).dt = 2
-         /\ t.op = "logaddexp" => Output(t.arg).dt = 0
+              /\ HasName(t.arg.ti, t.vars[k][1]) => Lookup(t.arg.ti, t.vars[k][1]) = t.vars[k][2]
+         /\ t.op \in {"and", "or"} => t.arg.to.dt = 2
+         \* funsor types a reduction like its argument, which is only sound for
+         \* idempotent ops on bounded integers; sums/products are over reals
+         /\ t.op \in {"add", "mul", "logaddexp"} => t.arg.to.dt = 0
     [] t.c = "Sub" ->
-         /\ WellTyped(t.arg)
          /\ \A k \in 1..Len(t.subs) :
-              /\ WellTyped(t.subs[k][2])
-              /\ HasName(Inputs(t.arg), t.subs[k][1]) =>
-                   LET d == Lookup(Inputs(t.arg), t.subs[k][1])
-                       o == Output(t.subs[k][2])
-                   IN o.sh = d.sh /\ (d.dt = 0) = (o.dt = 0) /\ o.dt <= d.dt
+              HasName(t.arg.ti, t.subs[k][1]) =>
+                   LET d == Lookup(t.arg.ti, t.subs[k][1])
+                       o == t.subs[k][2].to
+                   IN o = d    \* a substituted value must have exactly the input's domain
          /\ \* the result's inputs must be consistently typed
-            LET rest == FilterPairs(Inputs(t.arg), Names(t.subs)) IN
+            LET rest == FilterPairs(t.arg.ti, Names(t.subs)) IN
             \A k \in 1..Len(t.subs) :
-              /\ SharedAgree(Inputs(t.subs[k][2]), rest)
-              /\ \A j \in 1..Len(t.subs) : SharedAgree(Inputs(t.subs[k][2]), Inputs(t.subs[j][2]))
+              /\ SharedAgree(t.subs[k][2].ti, rest)
+              /\ \A j \in 1..Len(t.subs) : SharedAgree(t.subs[k][2].ti, t.subs[j][2].ti)
     [] t.c = "Stack" ->
-         /\ \A k \in 1..Len(t.parts) :
-              /\ WellTyped(t.parts[k])
-              /\ ~HasName(Inputs(t.parts[k]), t.name)
-              /\ Output(t.parts[k]) = Output(t.parts[1])
-              /\ \A j \in 1..Len(t.parts) : SharedAgree(Inputs(t.parts[k]), Inputs(t.parts[j]))
+         \A k \in 1..Len(t.parts) :
+              /\ ~HasName(t.parts[k].ti, t.name)
+              /\ t.parts[k].to = t.parts[1].to
+              /\ \A j \in 1..Len(t.parts) : SharedAgree(t.parts[k].ti, t.parts[j].ti)
     [] t.c = "Cat" ->
-         /\ \A k \in 1..Len(t.parts) :
-              /\ WellTyped(t.parts[k])
-              /\ HasName(Inputs(t.parts[k]), t.pn)
-              /\ IsBintD(Lookup(Inputs(t.parts[k]), t.pn))
-              /\ t.name # t.pn => ~HasName(Inputs(t.parts[k]), t.name)
-              /\ Output(t.parts[k]) = Output(t.parts[1])
+         \A k \in 1..Len(t.parts) :
+              /\ HasName(t.parts[k].ti, t.pn)
+              /\ IsBintD(Lookup(t.parts[k].ti, t.pn))
+              /\ t.name # t.pn => ~HasName(t.parts[k].ti, t.name)
+              /\ t.parts[k].to = t.parts[1].to
               /\ \A j \in 1..Len(t.parts) :
-                   SharedAgree(FilterPairs(Inputs(t.parts[k]), {t.pn}),
-                               FilterPairs(Inputs(t.parts[j]), {t.pn}))
+                   SharedAgree(FilterPairs(t.parts[k].ti, {t.pn}), FilterPairs(t.parts[j].ti, {t.pn}))
     [] t.c = "Lam" ->
-         /\ WellTyped(t.expr) /\ IsBintD(t.var[2])
-         /\ HasName(Inputs(t.expr), t.var[1]) => Lookup(Inputs(t.expr), t.var[1]) = t.var[2]
+         /\ IsBintD(t.var[2])
+         /\ HasName(t.expr.ti, t.var[1]) => Lookup(t.expr.ti, t.var[1]) = t.var[2]
     [] t.c = "Indep" ->
-         /\ WellTyped(t.fn)
-         /\ HasName(Inputs(t.fn), t.bv) /\ HasName(Inputs(t.fn), t.dv)
-         /\ IsBintD(Lookup(Inputs(t.fn), t.bv))
-         /\ Lookup(Inputs(t.fn), t.dv).dt = 0
-         /\ ~HasName(Inputs(t.fn), t.rv) \/ t.rv = t.dv
-         /\ Output(t.fn) = RealD
+         /\ HasName(t.fn.ti, t.bv) /\ HasName(t.fn.ti, t.dv)
+         /\ IsBintD(Lookup(t.fn.ti, t.bv))
+         /\ Lookup(t.fn.ti, t.dv).dt = 0
+         /\ ~HasName(t.fn.ti, t.rv) \/ t.rv = t.dv
+         /\ t.fn.to = RealD
     [] t.c = "Align" ->
-         /\ WellTyped(t.arg)
-         /\ {t.names[k] : k \in 1..Len(t.names)} = InputNames(t.arg)
-         /\ Len(t.names) = Cardinality(InputNames(t.arg))
+         /\ {t.names[k] : k \in 1..Len(t.names)} = Names(t.arg.ti)
+         /\ Len(t.names) = Len(t.arg.ti)
     [] t.c = "Delta" ->
          \A k \in 1..Len(t.terms) :
-           /\ WellTyped(t.terms[k][2]) /\ WellTyped(t.terms[k][3])
-           /\ ~HasName(Inputs(t.terms[k][2]), t.terms[k][1])
-           /\ Output(t.terms[k][3]) = RealD
-    [] t.c = "Con" ->
-         /\ \A k \in 1..Len(t.terms) : WellTyped(t.terms[k])
-         /\ \A k \in 1..Len(t.vars) : IsBintD(t.vars[k][2])
+           /\ ~HasName(t.terms[k][2].ti, t.terms[k][1])
+           /\ t.terms[k][3].to = RealD
+    [] t.c = "Con" -> \A k \in 1..Len(t.vars) : IsBintD(t.vars[k][2])
     [] OTHER -> FALSE
 
 \* the value must fit the declared output domain at every point (type soundness)
 TypeSound(t) ==
-  LET tb == Table(t)  o == Output(t) IN \A k \in 1..Len(tb) : InDomain(tb[k], o)
+  LET tb == Table(t) IN \A k \in 1..Len(tb) : InDomain(tb[k], t.to)
 
 \* funsor's documented core fragment: ground, integer-indexed tensor expressions on
 \* which eager evaluation must complete to a concrete tensor.
@@ -148,25 +144,25 @@ InCore(t) ==
     [] t.c = "Bin" -> t.op.n \in CoreBin /\ InCore(t.l) /\ InCore(t.r)
     [] t.c = "Red" ->
          /\ t.op \in CoreRed /\ InCore(t.arg)
-         /\ Names(t.vars) \subseteq InputNames(t.arg)
+         /\ Names(t.vars) \subseteq Names(t.arg.ti)
     [] t.c = "Sub" ->
          /\ InCore(t.arg)
          /\ \A k \in 1..Len(t.subs) :
               LET v == t.subs[k][2] IN
               \/ v.c \in {"Num", "Slice"}
               \/ v.c = "Ten"
-              \/ v.c = "Var" /\ ~HasName(FilterPairs(Inputs(t.arg), Names(t.subs)), v.name)
+              \/ v.c = "Var" /\ ~HasName(FilterPairs(t.arg.ti, Names(t.subs)), v.name)
          /\ \* distinct target names: no two substituted variables coincide
             LET tg == [k \in 1..Len(t.subs) |->
                          IF t.subs[k][2].c = "Var" THEN t.subs[k][2].name
                          ELSE IF t.subs[k][2].c = "Slice" THEN t.subs[k][2].name ELSE ""]
             IN \A i, j \in 1..Len(tg) : (i # j /\ tg[i] # "") => tg[i] # tg[j]
     [] t.c \in {"Stack", "Cat"} -> \A k \in 1..Len(t.parts) : InCore(t.parts[k])
-    [] t.c = "Lam" -> InCore(t.expr)
+    [] t.c = "Lam" -> InCore(t.expr) /\ HasName(t.expr.ti, t.var[1])
     [] OTHER -> FALSE
 
 \* a core term is *ground* when all its inputs are bounded integers
-GroundCore(t) == InCore(t) /\ \A k \in 1..Len(Inputs(t)) : IsBintD(Inputs(t)[k][2])
+GroundCore(t) == InCore(t) /\ \A k \in 1..Len(t.ti) : IsBintD(t.ti[k][2])
 
 -----------------------------------------------------------------------------
 (* candidate terms for one step, per action *)
@@ -181,21 +177,21 @@ Push(t) == pool' = Append(pool, t) /\ nops' = nops + 1
 AddLeaf ==
   /\ "Leaf" \in Acts /\ nops = 0 /\ Len(pool) < MaxLeaves
   /\ \E k \in 1..Len(Leaves) :
-       /\ \A j \in 1..Len(pool) : pool[j] # Leaves[k]
-       /\ pool' = Append(pool, Leaves[k]) /\ nops' = nops
+       /\ \A j \in 1..Len(pool) : pool[j] # Mk(Leaves[k])
+       /\ pool' = Append(pool, Mk(Leaves[k])) /\ nops' = nops
 
 CanStep == pool # <<>> /\ nops < MaxOps
 
 DoUn ==
   /\ "Un" \in Acts /\ CanStep
   /\ \E k \in 1..Len(UnOps) :
-       LET t == [c |-> "Un", op |-> UnOps[k], arg |-> Last] IN Admissible(t) /\ Push(t)
+       LET t == Mk([c |-> "Un", op |-> UnOps[k], arg |-> Last]) IN Admissible(t) /\ Push(t)
 
 DoBin ==
   /\ "Bin" \in Acts /\ CanStep
   /\ \E k \in 1..Len(BinOps), j \in 1..Len(pool), flip \in BOOLEAN :
-       LET t == IF flip THEN [c |-> "Bin", op |-> BinOps[k], l |-> pool[j], r |-> Last]
-                ELSE [c |-> "Bin", op |-> BinOps[k], l |-> Last, r |-> pool[j]]
+       LET t == IF flip THEN Mk([c |-> "Bin", op |-> BinOps[k], l |-> pool[j], r |-> Last])
+                ELSE Mk([c |-> "Bin", op |-> BinOps[k], l |-> Last, r |-> pool[j]])
        IN Admissible(t) /\ Push(t)
 
 DoGetitem ==
@@ -203,8 +199,8 @@ DoGetitem ==
   /\ \E j \in 1..Len(pool), flip \in BOOLEAN :
        LET x == IF flip THEN pool[j] ELSE Last
            i == IF flip THEN Last ELSE pool[j]
-       IN \E off \in 0..(Len(Output(x).sh) - 1) :
-            LET t == [c |-> "Bin", op |-> [n |-> "getitem", p |-> <<off>>], l |-> x, r |-> i]
+       IN \E off \in 0..(Len(x.to.sh) - 1) :
+            LET t == Mk([c |-> "Bin", op |-> [n |-> "getitem", p |-> <<off>>], l |-> x, r |-> i])
             IN Admissible(t) /\ Push(t)
 
 \* every non-empty sub-sequence of RedVars, chosen by a bit mask
@@ -217,60 +213,60 @@ SubSeqByMask(s, mask) ==
 DoRed ==
   /\ "Red" \in Acts /\ CanStep
   /\ \E k \in 1..Len(RedOps), mask \in 1..(IPow(2, Len(RedVars)) - 1) :
-       LET t == [c |-> "Red", op |-> RedOps[k], arg |-> Last, vars |-> SubSeqByMask(RedVars, mask)]
+       LET t == Mk([c |-> "Red", op |-> RedOps[k], arg |-> Last, vars |-> SubSeqByMask(RedVars, mask)])
        IN Admissible(t) /\ Push(t)
 
 \* substitution maps: every input of the target (plus one name it does not have)
 \* is either left alone (0) or mapped to SubVals[k]
 DoSub ==
   /\ "Sub" \in Acts /\ CanStep
-  /\ LET ai == Inputs(Last)
-         keys == NameSeq(ai) \o <<NewNames[1]>>
+  /\ LET ai == Last.ti
+         keys == NameSeq(ai) \o (IF HasName(ai, NewNames[1]) THEN <<>> ELSE <<NewNames[1]>>)
      IN \E f \in [1..Len(keys) -> 0..Len(SubVals)] :
           /\ \E k \in 1..Len(keys) : f[k] # 0
           /\ LET RECURSIVE mk(_)
                  mk(k) == IF k > Len(keys) THEN <<>>
-                          ELSE (IF f[k] = 0 THEN <<>> ELSE << <<keys[k], SubVals[f[k]]>> >>) \o mk(k + 1)
-                 t == [c |-> "Sub", arg |-> Last, subs |-> mk(1)]
+                          ELSE (IF f[k] = 0 THEN <<>> ELSE << <<keys[k], ASubVals[f[k]]>> >>) \o mk(k + 1)
+                 t == Mk([c |-> "Sub", arg |-> Last, subs |-> mk(1)])
              IN Admissible(t) /\ Push(t)
 
 DoLam ==
   /\ "Lam" \in Acts /\ CanStep
   /\ \E k \in 1..Len(RedVars) :
-       LET t == [c |-> "Lam", var |-> RedVars[k], expr |-> Last] IN Admissible(t) /\ Push(t)
+       LET t == Mk([c |-> "Lam", var |-> RedVars[k], expr |-> Last]) IN Admissible(t) /\ Push(t)
 
 DoStack ==
   /\ "Stack" \in Acts /\ CanStep
   /\ \E j \in 1..Len(pool), n \in 1..Len(NewNames), flip \in BOOLEAN :
-       LET t == [c |-> "Stack", name |-> NewNames[n],
-                 parts |-> IF flip THEN <<pool[j], Last>> ELSE <<Last, pool[j]>>]
+       LET t == Mk([c |-> "Stack", name |-> NewNames[n],
+                 parts |-> IF flip THEN <<pool[j], Last>> ELSE <<Last, pool[j]>>])
        IN Admissible(t) /\ Push(t)
 
 DoCat ==
   /\ "Cat" \in Acts /\ CanStep
   /\ \E j \in 1..Len(pool), n \in 0..Len(NewNames), p \in 1..Len(RedVars), flip \in BOOLEAN :
        LET pn == RedVars[p][1]
-           t == [c |-> "Cat", name |-> IF n = 0 THEN pn ELSE NewNames[n],
-                 parts |-> IF flip THEN <<pool[j], Last>> ELSE <<Last, pool[j]>>, pn |-> pn]
+           t == Mk([c |-> "Cat", name |-> IF n = 0 THEN pn ELSE NewNames[n],
+                 parts |-> IF flip THEN <<pool[j], Last>> ELSE <<Last, pool[j]>>, pn |-> pn])
        IN Admissible(t) /\ Push(t)
 
 DoAlign ==
   /\ "Align" \in Acts /\ CanStep
-  /\ LET ns == NameSeq(Inputs(Last)) IN
+  /\ LET ns == NameSeq(Last.ti) IN
      \E perm \in [1..Len(ns) -> 1..Len(ns)] :
        /\ \A a, b \in 1..Len(ns) : a # b => perm[a] # perm[b]
        /\ \E a \in 1..Len(ns) : perm[a] # a
-       /\ LET t == [c |-> "Align", arg |-> Last, names |-> [k \in 1..Len(ns) |-> ns[perm[k]]]]
+       /\ LET t == Mk([c |-> "Align", arg |-> Last, names |-> [k \in 1..Len(ns) |-> ns[perm[k]]]])
           IN Admissible(t) /\ Push(t)
 
 DoIndep ==
   /\ "Indep" \in Acts /\ CanStep
   /\ \E b \in 1..Len(RedVars), n \in 1..Len(NewNames) :
-       LET fi == Inputs(Last) IN
+       LET fi == Last.ti IN
        \E d \in 1..Len(fi) :
          /\ fi[d][2].dt = 0
-         /\ LET t == [c |-> "Indep", fn |-> Last, rv |-> NewNames[n],
-                      bv |-> RedVars[b][1], dv |-> fi[d][1]]
+         /\ LET t == Mk([c |-> "Indep", fn |-> Last, rv |-> NewNames[n],
+                      bv |-> RedVars[b][1], dv |-> fi[d][1]])
             IN Admissible(t) /\ Push(t)
 
 Next == AddLeaf \/ DoUn \/ DoBin \/ DoGetitem \/ DoRed \/ DoSub \/ DoLam \/ DoStack
@@ -285,7 +281,7 @@ Spec == Init /\ [][Next]_vars
 Inv_TypeSound == pool # <<>> => TypeSound(Last)
 
 Inv_InputsDistinct ==
-  pool # <<>> => Cardinality(InputNames(Last)) = Len(Inputs(Last))
+  pool # <<>> => Cardinality(Names(Last.ti)) = Len(Last.ti)
 
 -----------------------------------------------------------------------------
 (* emission: one JSON record per state, consumed by harness/replay *)
@@ -295,11 +291,12 @@ PtsOf(ins) ==
      IF ins[k][2].dt = 0 THEN [j \in 1..Len(RealPts) |-> RealSample(ins[k][2].sh, j)] ELSE <<>>]
 
 Project(t) ==
-  [ins |-> Inputs(t), out |-> Output(t), pts |-> PtsOf(Inputs(t)), tab |-> Table(t),
-   core |-> GroundCore(t), dep |-> DependsOn(t)]
+  LET ins == t.ti  tb == Table(t) IN
+  [ins |-> ins, out |-> t.to, pts |-> PtsOf(ins), tab |-> tb,
+   core |-> GroundCore(t), dep |-> DependsOnTab(ins, tb)]
 
 Emit ==
   pool # <<>> /\ (nops > 0 \/ Len(pool) = 1) =>
-    PrintT(ToJson([tag |-> Tag, t |-> Last, exp |-> Project(Last)]))
+    PrintT(ToJson([tag |-> Tag, t |-> Strip(Last), exp |-> Project(Last)]))
 
 =============================================================================
